@@ -719,7 +719,7 @@ fn explore(cfg: &Cfg) -> (Stats, u64, u64) {
         }
     }
     // matching primitives on multi-byte patterns and inputs
-    for l in [Op::Insens("é"), Op::Insens("Éa"), Op::Insens("aB"), Op::Insens(""), Op::Insens("ab"), Op::Str("éa"), Op::Str("aé"), Op::Range('é', 'é'), Op::Range('a', 'é'), Op::Skip(1), Op::Skip(2), Op::Skip(3), Op::Skip(0), Op::CharBy, Op::Range('\u{1f600}', '\u{10ffff}'), Op::Str("\u{1f600}")] {
+    for l in [Op::Insens("é"), Op::Insens("Éa"), Op::Insens("aB"), Op::Insens(""), Op::Insens("ab"), Op::Str("éa"), Op::Str("aé"), Op::Range('é', 'é'), Op::Range('a', 'é'), Op::Skip(1), Op::Skip(2), Op::Skip(3), Op::Skip(0), Op::CharBy, Op::Range('\u{1f600}', '\u{10ffff}'), Op::Str("\u{1f600}"), Op::Range('a', 'b'), Op::Range('\0', '\u{1f}'), Op::Range('\u{100}', '\u{161}'), Op::Insens("\u{161}a")] {
         let ctxs: Vec<Op> = vec![
             l.clone(),
             Op::AndThen(Box::new(Op::Skip(1)), Box::new(l.clone())),
@@ -843,7 +843,8 @@ fn explore(cfg: &Cfg) -> (Stats, u64, u64) {
         }
     }
     // one character of every UTF-8 width; two four-byte ones with different lead bytes (F0, F4)
-    let wide_inputs = vcore::strings_upto(&['a', 'B', 'é', 'É', '\u{ff10}', '\u{1f600}', '\u{10ffff}'], if quick { 4 } else { 5 });
+    // ... and U+0161 / U+0100, whose low bytes (0x61, 0x00) fall inside the ASCII ranges used below
+    let wide_inputs = vcore::strings_upto(&['a', 'B', 'é', 'É', '\u{ff10}', '\u{1f600}', '\u{10ffff}', '\u{161}', '\u{100}'], if quick { 3 } else { 4 });
     let jobs = cfg.jobs;
     let long_inputs = vcore::strings_upto(&['a', 'b', 'é'], if quick { 5 } else { 6 });
     let parts: Vec<(Stats, HashSet<u128>, u64)> = std::thread::scope(|sc| {
